@@ -1,6 +1,6 @@
 import HdVerif.Proofs.VR
 import HdVerif.Proofs.Aliasing
-import HdVerif.Generated.T20vr
+import HdVerif.Model.VRGuards
 import HdVerif.Generated.T20uid
 import HdVerif.Generated.T20sites
 import HdVerif.Model.AliasTables
@@ -28,11 +28,6 @@ namespace HdVerif.C20
 open HdVerif HdVerif.VR HdVerif.Gen
 
 /-! ## value-representation guards -/
-
-/-- digit, space or underscore (what `_check_code_string` refuses as a first character) -/
-def isDigitSpaceUnderscore (c : Char) : Prop := (48 ≤ c.toNat ∧ c.toNat ≤ 57) ∨ c.toNat = 32 ∨ c.toNat = 95
-/-- space or underscore (what `_check_code_string` refuses as a last character) -/
-def isSpaceUnderscore (c : Char) : Prop := c.toNat = 32 ∨ c.toNat = 95
 
 private theorem cs_re1 (s : List Char) :
     reMatch [.rep ⟨false, [(32, 32), (48, 57), (65, 90), (95, 95)]⟩ 1 (some 16), .eos] s = true ↔
@@ -215,19 +210,6 @@ theorem person_name_silent_iff (s : List Char) :
 
 /-! ### the guards are applied to attributes of the value representation they check -/
 
-/-- does the guard for value representation `g` accept `s` -/
-def guardAccepts (g : String) (s : List Char) : Bool :=
-  if g = "CS" then decide (checkCodeString s = .ok ()) else
-  if g = "SH" then decide (checkShortString s = .ok ()) else
-  if g = "LO" then decide (checkLongString s = .ok ()) else
-  if g = "ST" then decide (checkShortText s = .ok ()) else
-  if g = "LT" then decide (checkLongText s = .ok ()) else false
-
-/-- validity for the value representation `a` of an attribute (PS3.5 §6.2); `False` for one this file does not cover -/
-def validFor (a : String) (s : List Char) : Prop :=
-  if a = "CS" then validCS s else if a = "SH" then validSH s else if a = "LO" then validLO s else
-  if a = "ST" then validST s else if a = "LT" then validLT s else False
-
 private theorem sites_same_vr :
     (guardSites.all fun x => x.2.1 == x.2.2 && ["CS", "SH", "LO", "ST", "LT"].contains x.2.1) = true := by decide
 
@@ -329,12 +311,6 @@ private theorem table_nocopy_param :
 
 private theorem table_copy :
     (allEntries.all fun e => !e.hasCopy || copyLeavesOriginal e) = true := by decide +kernel
-
-/-- the converters that have to build a new container around the caller's items (a `ContentSequence` keeps a name
-index and cannot be obtained by re-classing a list; `MeasurementReport.from_sequence` is a re-classed
-`ContentSequence.from_sequence`); see `nocopy_returns_same` -/
-def rebuildsContainer (e : Entry) : Bool :=
-  e.name == "ContentSequence.from_sequence" || e.name == "MeasurementReport.from_sequence"
 
 private theorem table_nocopy :
     (allEntries.all fun e => !e.hasCopy || rebuildsContainer e || nocopyReturnsSame e) = true := by decide +kernel
